@@ -19,7 +19,7 @@ func classSpelling(c string, i int) string {
 		return "{% " + c + " i in a %}"
 	case "capture":
 		return "{% capture v %}"
-	case "comment", "raw", "else":
+	case "comment", "raw", "else", "lqx_wrap":
 		return "{% " + c + " %}"
 	case "elsif":
 		return "{% elsif c %}"
@@ -175,6 +175,7 @@ func runParse(c J) J {
 	obs["text"] = src
 	res := guard(func() result {
 		eng := liquid.NewEngine()
+		registerExt(eng)
 		tpl, err := parseScribbled(eng, src, "", 0)
 		if err != nil {
 			return errResult("parse", err, "")
